@@ -310,42 +310,6 @@ func (e *env[E, FE]) Additive(t T, c *pcase) {
 
 // ---- ISN ----------------------------------------------------------------------------------------------------
 
-// knownISNEmpty: ISN deals a holder that is in every maximal unqualified set a share with an
-// empty piece map; converting that share to additive form panics (index out of range).
-const knownISNEmpty = "C02-isn-empty-share-toadditive-panics"
-
-// ISNEmptyShareProbe deals over the case's structure and converts the share of holder h over the
-// full quorum; it reports (share is empty, conversion panicked).
-func (e *env[E, FE]) ISNEmptyShareProbe(t T, c *pcase, h int) (empty, panicked bool) {
-	t.Helper()
-	scheme, err := isn.NewFiniteScheme[FE](e.f, c.ac)
-	if err != nil {
-		t.Fatalf("%v: isn.NewFiniteScheme: %v", c, err)
-	}
-	out, err := scheme.Deal(isn.NewSecret(e.f.One()), vlib.NewPRNG(c.seed, "isn/known"))
-	if err != nil {
-		t.Fatalf("%v: isn Deal: %v", c, err)
-	}
-	sh, ok := out.Shares().Get(sharing.ID(c.ids[h]))
-	if !ok {
-		t.Fatalf("%v: no ISN share for %d", c, c.ids[h])
-	}
-	empty = sh.Value().Size() == 0
-	quorum, err := policy.UnanimityOf(c.ids, c.p.Full())
-	if err != nil {
-		t.Fatalf("quorum: %v", err)
-	}
-	func() {
-		defer func() {
-			if r := recover(); r != nil {
-				panicked = true
-			}
-		}()
-		_, _ = scheme.ConvertShareToAdditive(sh, quorum)
-	}()
-	return empty, panicked
-}
-
 func (e *env[E, FE]) ISN(t T, c *pcase) {
 	t.Helper()
 	f, q := e.f, e.q
@@ -468,14 +432,20 @@ func (e *env[E, FE]) ISN(t T, c *pcase) {
 			if len(members) >= 2 {
 				got, err := c.additiveSum(t, q, s, members, func(h int, quorum *unanimity.Unanimity) (*big.Int, error) {
 					if d.shares[h].Value().Size() == 0 {
-						// known finding: ToAdditive of an empty share panics. Empty <=> redundant holder
-						// (checked at dealing); such a holder is nobody's pivot, its part would be zero.
-						vlib.Excluded(knownISNEmpty)
-						return new(big.Int), nil
+						// a holder in every maximal unqualified set owns no piece (fixed finding
+						// C02-isn-empty-share-toadditive-panics): the scheme method still converts,
+						// the bare share method reports an error; neither may panic
+						vlib.Class(c.test, "isn.additive-of-empty-share")
+						if _, err := d.shares[h].ToAdditive(quorum); err == nil {
+							t.Fatalf("%v: Share.ToAdditive of the piece-less share of %d succeeds", c, c.ids[h])
+						}
 					}
 					a, err := scheme.ConvertShareToAdditive(d.shares[h], quorum)
 					if err != nil {
 						return nil, err
+					}
+					if a.ID() != sharing.ID(c.ids[h]) {
+						t.Fatalf("%v: isn additive share of %d carries ID %d", c, c.ids[h], a.ID())
 					}
 					return lx.Big(a.Value()), nil
 				})
